@@ -720,6 +720,20 @@ func runHistory(rng *rand.Rand, prof histProfile, w *Writer, suite string) {
 				d.usedNonces = append(d.usedNonces, nonce)
 			}
 			h.rx(f, tag)
+			if opts.disableNonceCheck && (tag == "join.fresh" || tag == "join.reused-nonce") && d.joined && rng.Intn(2) == 0 {
+				// nonce check off: the device uses its new session, then the very same request arrives once more (a device that
+				// restarts with the same DevNonce, or a replay) and the device uses that session too - every (session key,
+				// downlink counter) pair may be on the air once only, so the two sessions must not share their keys
+				for k := 0; k < 2; k++ {
+					up := h.validUplink(d, true, false, d.fcnt, 1+rng.Intn(200), randBytes(rng, rng.Intn(10)), nil)
+					d.fcnt++
+					h.lastValid[di] = up
+					h.rx(up, "uplink.valid")
+					if k == 0 {
+						h.rx(f, "join.same-request-again")
+					}
+				}
+			}
 		default:
 			port := uint8([]int{1, 223, 1 + rng.Intn(223), 1 + rng.Intn(223)}[rng.Intn(4)]) // what the service lets an application queue
 			if os.Getenv("VERIF_EXPERIMENT_PORTS") != "" && rng.Intn(3) == 0 {
@@ -746,7 +760,7 @@ var profiles = map[string]histProfile{
 	"C04": {wUpdate: 12, badDatr: true, name: "C04", wUplink: 3, wCorrupt: 0, wJoin: 8, wSubmit: 0, wReplay: 0, maxDevs: 3, minEv: 6, maxEv: 16, shareAddr: 0},
 	"C05": {staleWrites: 12, wUpdate: 30, badDatr: true, name: "C05", wUplink: 3, wCorrupt: 0, wJoin: 8, wSubmit: 1, wReplay: 1, maxDevs: 3, minEv: 8, maxEv: 20, shareAddr: 0, nonceOff: 3},
 	"C06": {maxSubmit: 59, name: "C06", wUplink: 8, wCorrupt: 2, wJoin: 1, wSubmit: 6, wReplay: 1, maxDevs: 4, minEv: 10, maxEv: 30, shareAddr: 6},
-	"C07": {wUpdate: 20, badDatr: true, name: "C07", wUplink: 8, wCorrupt: 1, wJoin: 2, wSubmit: 3, wReplay: 1, maxDevs: 2, minEv: 10, maxEv: 30, confirmedOnly: true},
+	"C07": {nonceOff: 3, wUpdate: 20, badDatr: true, name: "C07", wUplink: 8, wCorrupt: 1, wJoin: 3, wSubmit: 3, wReplay: 1, maxDevs: 2, minEv: 10, maxEv: 30, confirmedOnly: true},
 	"C08": {maxSubmit: 59, name: "C08", wUplink: 9, wCorrupt: 1, wJoin: 0, wSubmit: 5, wReplay: 1, maxDevs: 3, minEv: 12, maxEv: 30},
 	// a long life of one server under mostly undecodable / unauthentic radio payloads, valid traffic in between
 	"C11": {noRestart: true, maxSubmit: 40, name: "C11", wUplink: 2, wCorrupt: 6, wJoin: 1, wSubmit: 1, wReplay: 9, maxDevs: 1, minEv: 320, maxEv: 380},
